@@ -2,7 +2,7 @@
 QUICK_ALSO = {
     "C08": ["c01_append_str", "c01_delete_str", "c01_set_list", "c01_incrby_int", "c03_lindex_lset_n3", "c03_rpush_n2", "c03_set_sadd",
             "c02_expire_persist_ttl", "c02_sweepstep_ttl_idx", "c01_rename_same_shard", "c01_rename_over_existing"],
-    "C06": ["c01_getrange_len3", "c01_getrange_len0", "c03_lrange_n3", "c20_total_bulk", "c20_total_simple", "c20_alloc_array",
+    "C06": ["c03_sinter_missing", "c01_getrange_len3", "c01_getrange_len0", "c03_lrange_n3", "c20_total_bulk", "c20_total_simple", "c20_alloc_array",
             "c15_xadd_idbytes_rest", "c15_id_parse_rest", "c10_alloc_read_string_kf", "c04_byrank_h213"],
     "C05": ["c20_rt_bulk", "c20_rt_line_types", "c20_prefix_off_inline_p", "c20_prefix_simple", "c06_handler_index_bounds"],
     "C02": ["c01_rename_same_shard", "c01_rename_same_name_present", "c06_expire_any_duration"],
@@ -10,5 +10,6 @@ QUICK_ALSO = {
     "C11": ["c20_rt_bulk"],
     "C01": ["c08_flushdb_watch", "c04_zadd_atomic"],
     "C13": ["c11_wakeup_pop_logged"],
+    "C10": ["c09_lencodec_u32", "c09_strcodec_0to3"],
     "C07": ["c18_db_arg_exec"],
 }
